@@ -366,4 +366,33 @@ theorem truncNat_pos (x : Rat) (h : 1 ≤ x) : 1 ≤ truncNat x := by
   have : (1 : Int) ≤ x.floor := Rat.le_floor_iff.mpr (by simpa using h)
   omega
 
+theorem ratSum_append (a b : List Rat) : ratSum (a ++ b) = ratSum a + ratSum b := by
+  induction a with
+  | nil => simp [ratSum]
+  | cons x xs ih => simp only [List.cons_append, ratSum, ih]; ring
+
+theorem ratSum_map_mul (l : List Rat) (k : Rat) : ratSum (l.map (· * k)) = ratSum l * k := by
+  induction l with
+  | nil => simp [ratSum]
+  | cons x xs ih => simp only [List.map_cons, ratSum, ih]; ring
+
+theorem uniform_center_mem (n : Nat) (e c : Rat) (hn : 1 ≤ n) : c ∈ (uniformAxis n e c true).values := by
+  have hn0 : (n : Rat) ≠ 0 := by exact_mod_cast (by omega : n ≠ 0)
+  simp only [RegAxis.values, uniformAxis, List.mem_map, List.mem_range, if_true]
+  refine ⟨n / 2, Nat.div_lt_self (by omega) (by omega), ?_⟩
+  have hn2 : (n : Rat) = 2 * ((n / 2 : Nat) : Rat) + ((n % 2 : Nat) : Rat) := by
+    exact_mod_cast (Nat.div_add_mod n 2).symm
+  field_simp
+  linear_combination (-e) * hn2
+
+/-- a point whose `i`-th coordinate lies on axis `i` is a point of the tensor grid -/
+theorem tensor_mem : ∀ (axes : List (List Rat)) (p : List Rat), List.Forall₂ (fun x ax => x ∈ ax) p axes →
+    p ∈ tensorPoints axes
+  | [], _, h => by cases h; simp [tensorPoints]
+  | ax :: rest, _, h => by
+    cases h with
+    | cons hx hrest =>
+      simp only [tensorPoints, List.mem_flatMap, List.mem_map]
+      exact ⟨_, tensor_mem rest _ hrest, _, hx, rfl⟩
+
 end HcipyVerif.Grid
